@@ -14,6 +14,8 @@ Correspondence (real CLI in-process through click's CliRunner, model = coq/Model
      and vs a python reading of the documented rule);
   I. shapes of BED bin tables: uniform interior bins with a shorter / LONGER last bin on the first / a middle / the last chromosome,
      single-bin chromosomes, one deviating interior bin; records in every part of every last bin; cload pairs and load -f bg2;
+  J. option interplay: {symmetric, -N} x --input-copy-status {unique, duplex, default} x {coo, bg2} x chunk sizes on full-matrix, square
+     and upper-triangle dumps, each cell judged by its documented meaning (copy status is ignored for square storage);
   G. names pass: chromosome names that look like numbers / floats / NA tokens / booleans through every text round trip
      (known finding D37: a name equal to a pandas NA token is refused by load / cload pairs, exit 1).
 Property oracle (never calls the code under test for its expected value): a plain-python reading of the
@@ -2090,6 +2092,42 @@ def run_bin_shapes(ctx, runner, cli, thorough):
     ctx.extra["bin_table_shapes"] = [t for t, _ in BIN_SHAPES]
 
 
+# ============================================================ J. storage mode x --input-copy-status x format (option interplay)
+def run_copy_status(ctx, runner, cli, cools, uris):
+    """cross product {symmetric, -N} x {unique, duplex} x {coo, bg2} on three kinds of text: the full-matrix dump (-f) of a symmetric
+    cooler, the dump of a square cooler, the upper-triangle dump of a symmetric cooler.  Documented meaning per cell: symmetric + unique
+    mirrors lower-triangle records into the upper triangle (a pixel repeated inside one chunk is refused, across chunks it adds up);
+    symmetric + duplex drops them; with -N (square storage) the copy status has no meaning and every record is stored as it is"""
+    cdir = ctx.tmp / "copystatus"
+    cdir.mkdir(exist_ok=True)
+    sym, sq = cools[0], cools[1]
+    sources = [("full-matrix-of-symmetric", sym, uris[0], True), ("square", sq, uris[1], False), ("upper-of-symmetric", sym, uris[0], False)]
+    k = 0
+    for sname, cool, uri, fill in sources:
+        for fmt in ("coo", "bg2"):
+            o = default_opts(); o["fill"] = fill; o["join"] = fmt == "bg2"
+            code, text = invoke(runner, cli, cli_args(o, uri))
+            text = read_tsv(text) if code == 0 else None
+            for symm in (True, False):
+                for status in ("unique", "duplex", None):
+                    for chunk in ((None, 3) if status else (None,)):
+                        k += 1
+                        case = {"kind": "load-audit", "cool": cool.spec(), "fmt": fmt, "one_based": False, "duplex": status == "duplex", "chunk": chunk,
+                                "fields": [], "symm": symm, "text": text, "vn": ["count"], "bins": "bed", "source": sname,
+                                "short": k % 2 == 0, "extra": ["--input-copy-status", "unique"] if status == "unique" else []}
+                        ctx.case(case, nontrivial=True, kind="copy-status:" + ("sym" if symm else "square") + ":" + str(status))
+                        if text is None:
+                            ctx.fail(case, {"why": "the dump to be re-loaded failed"}, None)
+                            continue
+                        code2, ires, storage = impl_load(runner, cli, cool, case, cdir, "X")
+                        bad = oracle_load(cool, case, code2, ires, storage)
+                        if not bad and code2 == 0 and storage != symm:
+                            bad = {"why": "storage mode of the loaded cooler is not the requested one", "symmetric": storage}
+                        if bad:
+                            ctx.fail(case, bad, None)
+    ctx.extra["copy_status_cases"] = k
+
+
 # ============================================================ run / replay
 def run(ctx):
     from click.testing import CliRunner
@@ -2112,7 +2150,8 @@ def run(ctx):
         run_history(ctx, runner, cli); tm["history"] = round(time.time() - t0, 1); t0 = time.time()
         run_names(ctx, runner, cli, thorough); tm["names"] = round(time.time() - t0, 1); t0 = time.time()
         run_zoom_specs(ctx, runner, cli, thorough); tm["zoom_specs"] = round(time.time() - t0, 1); t0 = time.time()
-        run_bin_shapes(ctx, runner, cli, thorough); tm["bin_shapes"] = round(time.time() - t0, 1)
+        run_bin_shapes(ctx, runner, cli, thorough); tm["bin_shapes"] = round(time.time() - t0, 1); t0 = time.time()
+        run_copy_status(ctx, runner, cli, cools, uris); tm["copy_status"] = round(time.time() - t0, 1)
         ctx.extra["section_wall_s"] = tm
     finally:
         os.chdir(cwd)
